@@ -95,6 +95,21 @@ def check_one(run, s: str, multiline: bool, engine: str) -> bool:
                           engine=engine, key='not-inverse-chunked')
             return False
     run.count('chunked_deliveries', 2)
+    # "with escapes enabled": the constructor keyword above, and the public attribute switched on before the first token
+    from srctools.tokenizer import Tokenizer
+    try:
+        tok = Tokenizer(quoted, allow_escapes=False)
+        tok.allow_escapes = True
+        toks = [tok(), tok()]
+    except Exception as exc:
+        run.violation(f'tokenizer raised {exc!r} with allow_escapes switched on through the attribute', witness={'escaped': esc},
+                      case=case, engine=engine, key='not-inverse-attribute-enabled')
+        return False
+    if toks[0][0] is not Token.STRING or toks[0][1] != s or toks[1][0] is not Token.EOF:
+        run.violation('tokenizing with allow_escapes switched on through the attribute did not reproduce the string',
+                      witness={'escaped': esc, 'tokens': [(t.name, v) for t, v in toks]}, case=case, engine=engine,
+                      key='not-inverse-attribute-enabled')
+        return False
     return ok
 
 
